@@ -207,7 +207,8 @@ def cfg_of(c):
 class C01(Prop):
     id = "C01"
     theorems = ["locateOne_spec", "locateOne_absent", "locateMany_found", "loc_list_spec", "loc_list_absent",
-                "perDim_spec", "stages_spec", "take_spec", "take_get", "take_list_labels"]
+                "perDim_spec", "stages_spec", "take_spec", "take_get", "take_list_labels",
+                "locateOne_tol_ok", "locateOne_tol_error", "locateOne_tol_inf", "locateOne_tol_exact", "loc_list_tol"]
     rule = ("arrays of rank 0-4, sizes 0-4, int/float/str labels stored increasing/decreasing/shuffled; per-dimension "
             "index from {present scalar, absent scalar, list with repeats/empty/absent members, ndarray, mask, full "
             "slice, Ellipsis}; spellings a[...], take, take(axis=name|pos), dict by name/position, .loc, .sel, .nloc, "
